@@ -380,6 +380,15 @@ def call_external(self, dotted, pos, kw, node, fr):
     root, last = parts[0], parts[-1]
     self.emit('call', node, fr, name=dotted, resolved=None, args=pos, kwargs=kw, external=True)
     if root in ('numpy', 'scipy'):
+        T.MODELLED.add(T.SYN.get(last, last))     # library functions have fixed semantics: distinct names, distinct functions
+        outs = [k for k in getattr(node, 'keywords', []) if k.arg == 'out']
+        if outs:
+            # ufunc(..., out=target): the result is written into (and returned as) `target`
+            kw2 = [(k, v) for k, v in kw if k != 'out']
+            res = self.numpy_call(last, pos, kw2)
+            if isinstance(outs[0].value, (ast.Name, ast.Attribute, ast.Subscript)):
+                self.assign(outs[0].value, res, fr, node)
+            return res
         return self.numpy_call(last, pos, kw)
     if dotted == 'copy.deepcopy' and pos:
         return T.mk_call('deepcopy', pos)
